@@ -3,12 +3,20 @@
 set -e
 cd "$(dirname "$0")"
 fail=0
-for f in $(find spec -name '*.tla' | sort); do
+for f in $(find spec -name '*.tla' ! -name 'MC_*Ind.tla' | sort); do
   out=$(cd "$(dirname "$f")" && java -cp /opt/veriftools/tla/tla2tools.jar:/opt/veriftools/tla/CommunityModules-deps.jar tla2sany.SANY "$(basename "$f")" 2>&1) || true
   if echo "$out" | grep -q -E "Fatal errors|\*\*\* Errors|Parse Error|Could not find module"; then
     echo "SANY FAILED: $f"; echo "$out" | tail -20; fail=1
   fi
 done
+# Apalache-only wrapper modules are type-checked by Apalache (when present)
+if command -v apalache-mc >/dev/null 2>&1; then
+  for f in $(find spec -name 'MC_*Ind.tla' | sort); do
+    d=$(mktemp -d)
+    (cd "$(dirname "$f")" && apalache-mc typecheck --out-dir="$d" "$(basename "$f")" >"$d/out.txt" 2>&1) || { echo "APALACHE TYPECHECK FAILED: $f"; tail -15 "$d/out.txt"; fail=1; }
+    rm -rf "$d"
+  done
+fi
 PYTHONDONTWRITEBYTECODE=1 /venv/bin/python -c "import sys; sys.path.insert(0,'.'); import harness.tlc, harness.common" || fail=1
 [ -x /verif/harness/selfcheck.py ] && PYTHONDONTWRITEBYTECODE=1 /venv/bin/python /verif/harness/selfcheck.py || true
 exit $fail
